@@ -77,7 +77,7 @@ func C02(r *Run) *core.Report {
 						visible++
 					}
 					// a present entry is removed or replaced for expiry reasons only if that very entry tested expired
-					if ev.Effect == "delete" && ev.Loaded == 1 && ev.Name == "Compute" && !userDeleted(p, ev) && itemStatus(p.PC, sym.Leaf("mapold", own)).Status != "expired" {
+					if ev.Effect == "delete" && ev.Loaded == 1 && ev.Name == "Compute" && !userDeleted(p, ev) && !explicitRemover[mp.Name] && itemStatus(p.PC, sym.Leaf("mapold", own)).Status != "expired" {
 						key := "del/" + ev.Pos
 						if _, dup := stale[key]; !dup {
 							stale[key] = fmt.Sprintf("the read-modify-write at %s deletes the entry it found although that entry did not test expired under the key's lock (path: %s): a fresh value stored by a completed write is lost to lazy deletion / cleanup", ev.Pos, sym.DescribePC(p.PC))
